@@ -55,7 +55,20 @@ def _r11(ctx):
             last = nme.rsplit("::", 1)[-1]
             if last in ACQ and ("sync::RwLock" in nme or "sync::Mutex" in nme) and tm["args"]:
                 T = T or terms(P, b)
-                acq.append((bb, tm, last, norm(T.call_args(bb)[0])))
+
+                def lock_id(t, bb=bb, depth=0):
+                    """the lock expression with index variables replaced by what they hold (`locks[i]` twice is one lock)"""
+                    t = norm(t)
+                    if depth > 8:
+                        return t
+                    if t[0] == "index" and isinstance(t[2], str):
+                        m_ = re.match(r"\[_(\d+)\]$", t[2])
+                        iv = norm(T.place((int(m_.group(1)),), bb, len(b.blocks[bb]["stmts"]))) if m_ else t[2]
+                        return ("index", lock_id(t[1], bb, depth + 1), iv)
+                    if t[0] in ("field", "ref", "deref"):
+                        return (t[0], lock_id(t[1], bb, depth + 1)) + tuple(t[2:])
+                    return t
+                acq.append((bb, tm, last, lock_id(T.call_args(bb)[0])))
         if len(acq) < 2:
             continue
         cfg = cfg_of(b)
